@@ -41,3 +41,4 @@ def rules(ctx):
     S.relocate_tree_rules(ctx)
     S.after_bound_rules(ctx)
     S.relocation_content_rules(ctx)
+    S.tree_root_update_rules(ctx)
